@@ -321,6 +321,11 @@ class Interp:
                 return OpaqueV('mro', v.payload)
         if isinstance(v, BuiltinV) and v.name in ('dict', 'list', 'str', 'object', 'int', 'tuple', 'type'):
             return BuiltinV(f'{v.name}.{name}')
+        if isinstance(v, BuiltinV) and v.bound is None:
+            full = f'{v.name}.{name}'
+            if full in self.eng.registry.constants:
+                return sv_const(self.eng.registry.constants[full])
+            return BuiltinV(full)
         self.unsupported(node, f'attribute {name!r} of {v!r}')
 
     def obj_getattr(self, v, name, fr, node, default=None, has_default=False):
